@@ -196,6 +196,11 @@ func (s *SSAInfo) classifyUse(fn *ssa.Function, addr ssa.Value, r ssa.Instructio
 		}
 	case *ssa.UnOp:
 		if u.Op == token.MUL {
+			if rr := u.Referrers(); rr == nil || len(*rr) == 0 {
+				// a load nobody uses: go/ssa emits one for `for i := range x.arr` over an array field,
+				// where the language does not even evaluate the operand (its length is a constant)
+				return
+			}
 			fa.Kind = AccRead
 		} else {
 			fa.Kind = AccAddr
